@@ -180,4 +180,25 @@ theorem tie_make_valid_interval (τ s e : Rat) :
   simp only [Id.run, tie_loop_down2, tie_loop_up2]
   rfl
 
+/-- `AngleInterval.__init__` as the CURRENT source has it — normalisation loop, `assert end - start < TWO_PI`, then
+    `Interval.__init__` running AngleInterval's own property setters (each asserting `is_valid_orientation`) on the
+    partially initialised object — is the model's `mkAngle`. -/
+theorem tie_angle_init (τ s e : Rat) :
+    Gen.AngleInterval_init τ ((fuelFor τ s + fuelFor τ e) + (fuelFor τ s + fuelFor τ e)) s e
+      = (mkAngle τ s e).map (fun i => (some i.lo, some i.hi)) := by
+  unfold Gen.AngleInterval_init mkAngle
+  rw [tie_make_valid_interval]
+  generalize makeValidInterval τ s e = p
+  obtain ⟨s1, e1⟩ := p
+  unfold Gen.AngleInterval_base_init Gen.AngleInterval_set_start Gen.AngleInterval_set_end
+  by_cases h1 : e1 - s1 < τ
+  · by_cases h2 : validOrientation τ s1 = true
+    · by_cases h3 : validOrientation τ e1 = true
+      · by_cases h4 : s1 ≤ e1
+        · simp [h1, h2, h3, h4, bind, Except.bind, pure, Except.pure, Except.map, CR.Py.assert, ge_iff_le]
+        · simp [h1, h2, h3, h4, bind, Except.bind, pure, Except.pure, Except.map, CR.Py.assert, ge_iff_le]
+      · simp [h1, h2, h3, bind, Except.bind, pure, Except.pure, Except.map, CR.Py.assert]
+    · simp [h1, h2, bind, Except.bind, pure, Except.pure, Except.map, CR.Py.assert]
+  · simp [h1, bind, Except.bind, pure, Except.pure, Except.map, CR.Py.assert]
+
 end CR.Iv
